@@ -635,7 +635,24 @@ func runC08(c *Ctx) {
 		// EOF -> terminated + 1006
 		abnormal, _ := constantInt(p.Const("codec/websocket", "CloseAbnormal"))
 		eofVar := p.extPkg("io").Scope().Lookup("EOF").(*types.Var)
-		for _, fn := range append([]*ssa.Function{w.nextFrame}, w.asyncNextFrame.AnonFuncs...) {
+		for _, top := range append([]*ssa.Function{w.nextFrame}, w.asyncNextFrame.AnonFuncs...) {
+			// the post-processing of a read may live in a helper both readers share: analysed there
+			fn := top
+			hasTerm := func(g *ssa.Function) bool {
+				for _, a := range storesTo(g, w.state) {
+					if k, ok := constInt(a.Instr.(*ssa.Store).Val); ok && k == w.stTerm {
+						return true
+					}
+				}
+				return false
+			}
+			if !hasTerm(fn) {
+				for _, call := range allCalls(top) {
+					if h := call.Call.StaticCallee(); isHelperOf(w.nextFrame, h) && hasTerm(h) {
+						fn = h
+					}
+				}
+			}
 			found := false
 			for _, a := range storesTo(fn, w.state) {
 				st := a.Instr.(*ssa.Store)
